@@ -387,13 +387,16 @@ From NV Require Import Crash.Check.
 
 (* the model state every observed crash point is compared with is the state after
    some number n of ticks of the same history: a state the theorems above speak about *)
+Lemma iter_shift {A} (f : A -> A) n x : Nat.iter (S n) f x = Nat.iter n f (f x).
+Proof. induction n; simpl in *; auto. now rewrite <- IHn. Qed.
+
 Lemma seek_iter fuel c p m m' :
   seek fuel c p m = Some m' -> exists n, m' = Nat.iter n (tick c) m.
 Proof.
   revert m; induction fuel; intros m H; simpl in H.
   - destruct (at_point c p m); [|discriminate]. inversion H. now exists 0.
   - destruct (at_point c p m); [inversion H; now exists 0|].
-    apply IHfuel in H as [n ->]. exists (S n). now rewrite Nat.iter_succ_r.
+    apply IHfuel in H as [n ->]. exists (S n). now rewrite iter_shift.
 Qed.
 
 Theorem seek_is_run_n fuel c p ops m :
